@@ -22,6 +22,15 @@ claimed["C17"] = ("contract-based deductive verification: loop invariant over a 
   "Trusted: the shell-lexing spec function stands for a real /bin/sh; strings.Builder model; valid UTF-8 input; NUL excluded. Not yet under contract: quoteValue's quoted branch (strings.ReplaceAll) and appendPath (NFKD).",
   "DESIGN.md §5 C17")
 
+claimed["C09"] = ("contract-based deductive verification: shunting-yard loop invariants and expression-tree postconditions as VCs from go/ssa (z3/cvc5) + table checks over the operator table",
+  "ConvertToPostfix is proved to keep the operator stack non-decreasing in precedence between brackets (a tighter operator is emitted before a looser one that follows; equal precedences left open), to move only operations to the output, to pop closers to the matching opener or fail, and createExpressionTree to return either an error or a root whose arity matches its operator; the operator table is checked for arity 0..2, handlers, immutability and the documented class order. Partial: layout/comment insensitivity lives in the participle regexp lexer and is not decided; end-to-end equality with the parenthesised form is not decided.",
+  "Trusted: go/ssa, yqv, the class order file tables/precedence_classes.json (taken from the docs), lexer output well-formedness (precondition wfToken) until handleToken is under contract.",
+  "DESIGN.md §5 C09")
+claimed["C11"] = ("contract-based deductive verification: zero-annotation panic-freedom obligations (index, slice, nil, type assertion, division, explicit panic, makeslice) and loop variants generated from go/ssa for every function under contract, discharged by z3/cvc5",
+  "For every function under contract for any property, each potentially panicking instruction is an obligation proved from the function's preconditions for all inputs; explicit panic calls must be unreachable; loops with a stated variant terminate. Partial: only the functions listed in the evidence file are covered; libraries, decoders driven by external parsers, recursion depth and memory are not.",
+  "Trusted: callers establish the stated preconditions (each call site inside the contract set is itself an obligation); assumed library models; trusted contracts listed in evidence.",
+  "DESIGN.md §5 C11")
+
 not_yet = {}
 
 def main():
